@@ -69,6 +69,13 @@ def run(ctx, only=None, floors=True, clients=None):
             impls = [g.id for g in F.fns.values() if g.trait_item == cid]
             if any(g in comp for g in impls):
                 descents.append((bi, t))
+        # a descent made from a closure handed to an adapter (`insts.iter().try_for_each(|i| self.push(&i.cell))`):
+        # the adapter call stands for the descent
+        for cf, abb, an in od.closure_calls(F, f):
+            if abb in [d[0] for d in descents]:
+                continue
+            if any(callee_id(u) in comp for _, u in Body(cf).calls()):
+                descents.append((abb, b.term(abb)))
         if not descents:
             ctx.error("R17.1", "%s: no recursive descent found" % key)
             continue
@@ -404,10 +411,12 @@ def run(ctx, only=None, floors=True, clients=None):
         else:
             loops = od.loop_iterations_all_call(b, desc)
             if not loops:
+                loops = od.every_item_handled(F, f, lambda t, comp=comp: callee_id(t) in comp)
+            if not loops:
                 ctx.error("R17.3", "%s: no dependency loop found" % key)
             for header, ok in loops:
                 if ok:
                     ctx.ok("R17.3", "%s/loop" % key, "every iteration descends")
                 else:
-                    ctx.violation("R17.3", "%s/loop" % key, "%s: an iteration of the instance loop can skip the descent" % key, b.site(header))
+                    ctx.violation("R17.3", "%s/loop" % key, "%s: an iteration of the instance loop can skip the descent" % key, b.site(header) if isinstance(header, int) else "%s:%d" % (f.sp[0], f.sp[1]))
     ctx.assume("std HashSet/Vec behave as documented; lock poisoning unwraps are not input-dependent")
